@@ -113,9 +113,12 @@ def build_bar(spec):
     expected = []
     for content, label in spec["entries"]:
         nc = build_content(content)
-        if not bar.place_notes(nc, V.BY_LABEL[label][1]):
+        val = V.BY_LABEL[label.split("~")[0]][1]
+        if label.endswith("~f"):
+            val = float(val)                 # the same value spelled as a float (4.0), as Track.from_chords produces them
+        if not bar.place_notes(nc, val):
             return None, None
-        expected.append(expected_entry(nc, label))
+        expected.append(expected_entry(nc, label.split("~")[0]))
     return bar, expected
 
 
@@ -718,8 +721,29 @@ def run_rerender(case):
     S.outcome((bi, via, edit[0]))
 
 
+def run_value_forms(case):
+    """case = [base label, order, via]: in freshly loaded value / exporter modules a base value is exported in its int
+    and in its float spelling (4 and 4.0), in the given order; both texts must decode to that value."""
+    import importlib
+    import mingus.core.value as _mvalue
+    S = engine.S
+    label, order, via = case
+    importlib.reload(_mvalue)
+    importlib.reload(LY)
+    importlib.reload(MX)
+    for lab in ([label + "~f", label] if order == "float_first" else [label, label + "~f"]):
+        spec = {"key": "C", "meter": list(BIG_METER), "showkey": True, "showtime": True,
+                "entries": [[[["C", 4]], lab], [None, lab], [[["E", 4], ["G", 4]], lab]]}
+        if via == "ly":
+            run_ly_bar(spec)
+        else:
+            run_xml_bar(spec)
+    S.count("value_form_cases")
+
+
 CLAUSES = {
     "rerender": run_rerender,
+    "value_forms": run_value_forms,
     "ly_note": run_ly_note,
     "ly_container": run_ly_nc,
     "ly_bar": run_ly_bar,
@@ -897,7 +921,9 @@ def strings(chars, maxlen):
 LY_CHARS = ["a", " ", "<", "&", ">", "'", "{", "}", "%", "#", "="]
 XML_CHARS = ["a", " ", "<", "&", ">", "'", '"', "]", u"é"]
 XML_NASTY = ["&amp;", "&lt;b&gt;", "<![CDATA[x]]>", "]]>", "</part-name>", "<!-- c -->", "&#38;", u"aé中", "<?pi?>",
-             "Sonata in <C> & 'D' \"minor\""]
+             "Sonata in <C> & 'D' \"minor\"",
+             # characters beyond the basic multilingual plane, and at its edges (all legal in XML 1.0)
+             u"\U0001D11E clef", u"violin \U0001F3BB", u"\U00010000\U0010FFFF", u"\uD7FF\uE000\uFFFD", u"tab\there"]
 LY_NASTY = ["Sonata in <C> & 'D'", "%{ x %}", "} {", "a = b", "header {", "c'4 <e g>"]
 
 
@@ -1049,6 +1075,10 @@ def explore(ctx):
         ctx.bound("ly_header_chars", LY_CHARS)
         ctx.product("ly_composition", shards, gen_ly_comp)
 
+    if ctx.want("value_forms"):
+        bases = ["1", "2", "4", "8", "16", "32", "64", "128"]
+        ctx.bound("value_forms", {"base values": bases, "orders": ["float_first", "int_first"], "exports": ["ly", "xml"]})
+        ctx.product("value_forms", bases, lambda b: ([b, o, via] for o in ("float_first", "int_first") for via in ("ly", "xml")))
     if ctx.want("rerender"):
         ctx.bound("rerender", {"bars": len(RERENDER_BARS), "edits": RERENDER_EDITS, "exports": RERENDER_VIAS})
         ctx.product("rerender", list(range(len(RERENDER_BARS))), lambda bi: ([bi, via, e] for via in RERENDER_VIAS for e in RERENDER_EDITS))
